@@ -63,7 +63,7 @@ func (d Doc) XML() string {
 	for _, e := range d {
 		switch e.Kind {
 		case 'n':
-			lat, lon := 5.0+float64(e.ID), 5.0+float64(e.ID)
+			lat, lon := outsideCoord(e.ID), outsideCoord(e.ID)
 			if e.Inside {
 				lat, lon = 0, 0
 			}
@@ -334,6 +334,30 @@ func scenarios(tier string) []Scenario {
 			out = append(out, Scenario{"extract", q, keepTags, 1, seqBound, 1, false})
 		})
 	}
+	// unusual but legal identifiers: negative ids (editors number new objects
+	// downwards from -1) and ids beyond 2^40
+	big := int64(1) << 40
+	for _, d := range []Doc{
+		{n(-1, true), n(-2, false), w(-10, -1, -2), r(-21, Ref{'w', -10})},
+		{n(-1, false), r(-21, Ref{'n', -1}, Ref{'r', -22}), r(-22, Ref{'n', -2}), n(-2, false)},
+		{n(big+1, true), n(big+2, false), w(big+10, big+1, big+2), r(big+21, Ref{'w', big + 10})},
+		{n(big+1, false), r(big+21, Ref{'n', big + 1}, Ref{'r', big + 22}), r(big+22, Ref{'n', big + 2}), n(big+2, false)},
+	} {
+		permutations(d, func(p Doc) {
+			out = append(out, Scenario{"extract", p, keepBounds, 1, seqBound, 1, false})
+			out = append(out, Scenario{"extract", p, keepAll, 1, seqBound, 1, false})
+			q := append(Doc{}, p...)
+			for t := range q {
+				if q[t].Kind == 'r' && (q[t].ID == -21 || q[t].ID == big+21) {
+					q[t].Tagged = true
+				}
+			}
+			out = append(out, Scenario{"extract", q, keepTags, 1, seqBound, 1, false})
+		})
+		q := append(Doc{}, d...)
+		q[len(q)-1].Tagged = true
+		out = append(out, Scenario{"pbf", d, keepAll, 1, 0, 1, false}, Scenario{"pbf", d, keepBounds, 1, 0, 1, false}, Scenario{"pbf", q, keepTags, 1, 0, 1, false})
+	}
 	// concurrent tier: sharp documents in which the collision is forced
 	tagged := func(e Elem) Elem { e.Tagged = true; return e }
 	sharp := []Doc{
@@ -417,8 +441,15 @@ func scenarios(tier string) []Scenario {
 	if tier == "thorough" {
 		fb = 2
 	}
-	for _, d := range subsets {
-		if d.dangling() || len(d) < 2 {
+	// (data with dangling references - a clipped extract - is legal input too)
+	filterDocs := append([]Doc{}, subsets...)
+	filterDocs = append(filterDocs,
+		Doc{n(1, true), w(1, 1, 9), w(2, 9, 3), n(3, false)},
+		Doc{n(1, true), w(1, 1, 9), w(2, 9, 3), n(3, false), r(1, Ref{'w', 2})},
+		Doc{n(1, true), r(1, Ref{'n', 1}, Ref{'n', 9}), w(1, 1, 8)},
+		Doc{n(1, true), r(1, Ref{'n', 1}, Ref{'w', 9}), r(2, Ref{'r', 9}, Ref{'n', 1})})
+	for _, d := range filterDocs {
+		if len(d) < 2 || (d.dangling() && len(d) <= 2) {
 			continue
 		}
 		out = append(out, Scenario{"filter", d, keepAll, 1, fb, 1, false})
@@ -542,7 +573,7 @@ func filterOnce(s Scenario, original *gosm.Data) (string, string) {
 		viol = "filter-not-least-fixpoint"
 	case setString(dataSet(f2)) != got:
 		viol = "filter-not-idempotent"
-	case f1.Check() != nil:
+	case !s.Doc.dangling() && f1.Check() != nil:
 		viol = "filter-not-closed"
 	}
 	for k := range dataSet(f1) {
@@ -722,7 +753,7 @@ func main() {
 		return
 	}
 	rep := report.New("C18", tier, "model_checking")
-	rep.Rule = "E3: instrumented encoding/osm (sync.Mutex/RWMutex, errgroup, channel, go rewritten to the vrt shim) under a cooperative scheduler; stateless DFS over all schedules with <= bound preemptions (scheduling point before every lock/unlock/send/recv/close/spawn/wait); sequential tier: every dangling-free document over 3 nodes, 2 ways, 2 relations with <= 4(5) elements in every element order x {KeepAll, KeepBounds, KeepTags on each element}, one worker, bound 1(2); concurrent tier: 10 sharp documents x 2-3 workers x keep functions, bound 1-2(2-3); Filter: map-iteration orders as environment choices, deviation bound 1(2). sequential tier: a second extraction from the same reader must agree; four documents with a dangling reference shared by two elements in every element order. PBF: the same documents (all element orders up to 3 elements) written as OSM PBF by an independent minimal writer and extracted with ExtractPBF, free-running: least fixpoint, Check, and the same identities and references as the XML extraction. Filter history: the input data set is unchanged afterwards (every field) and a second Filter with another keep function on the same input is its least fixpoint. Oracle per execution: Nodes/Ways/Relations = sequential least fixpoint, Check()==nil for dangling-free documents, no panic/deadlock/livelock; Filter = fixpoint, idempotent, closed, subset. Non-trivial = executions with at least one deviation."
+	rep.Rule = "E3: instrumented encoding/osm (sync.Mutex/RWMutex, errgroup, channel, go rewritten to the vrt shim) under a cooperative scheduler; stateless DFS over all schedules with <= bound preemptions (scheduling point before every lock/unlock/send/recv/close/spawn/wait); sequential tier: every dangling-free document over 3 nodes, 2 ways, 2 relations with <= 4(5) elements in every element order x {KeepAll, KeepBounds, KeepTags on each element}, one worker, bound 1(2); concurrent tier: 10 sharp documents x 2-3 workers x keep functions, bound 1-2(2-3); Filter: map-iteration orders as environment choices, deviation bound 1(2). sequential tier: a second extraction from the same reader must agree; four documents with a dangling reference shared by two elements and four with negative ids / ids beyond 2^40 in every element order (also as PBF). Filter also on data with dangling references. PBF: the same documents (all element orders up to 3 elements) written as OSM PBF by an independent minimal writer and extracted with ExtractPBF, free-running: least fixpoint, Check, and the same identities and references as the XML extraction. Filter history: the input data set is unchanged afterwards (every field) and a second Filter with another keep function on the same input is its least fixpoint. Oracle per execution: Nodes/Ways/Relations = sequential least fixpoint, Check()==nil for dangling-free documents, no panic/deadlock/livelock; Filter = fixpoint, idempotent, closed, subset. Non-trivial = executions with at least one deviation."
 	rep.Assumptions = []string{"ExtractPBF is exercised free-running only (osmpbf owns goroutines the scheduler does not control); it shares extract(), which is", "memory-model effects below the hooked synchronisation operations are covered only by a separate -race pass", "the free-running package's outcome must be among the explored outcomes (shim conformance)"}
 	sc := scenarios(tier)
 	rep.Set("scenarios", len(sc))
